@@ -133,7 +133,7 @@ def run(chk):
     # ---------------------------------------------------------------- set contents
     content = {}      # set id -> set of inserted value paths
     for e in calls:
-        if re.search(r"(HashSet|HashMap|BTreeSet)::insert$", e[1]) and len(e[2]) >= 2:
+        if re.search(r"(HashSet|HashMap|BTreeSet)[^:]*(::|>::)(insert|extend)$|Extend>?::extend$", e[1]) and len(e[2]) >= 2:
             sid = set_ids(e[2][0])
             if sid:
                 content.setdefault(sid, set()).update(paths_of(e[2][1]))
